@@ -42,6 +42,14 @@ void splinetable<Alloc>::fit(const ::ndsparse& data,
 		                       +std::to_string(coords.size())
 		                       +") does not equal dimension of input data ("
 		                       +std::to_string(data.ndim)+")");
+	for(uint32_t i=0; i<data.ndim; i++){
+		if(coords[i].size()<data.ranges[i])
+			throw std::logic_error("Coordinate vector for dimension "
+			                       +std::to_string(i)+" has fewer entries ("
+			                       +std::to_string(coords[i].size())
+			                       +") than the range of coordinate indices ("
+			                       +std::to_string(data.ranges[i])+")");
+	}
 	if(splineOrder.size()!=data.ndim)
 		throw std::logic_error("Number of spline orders ("
 		                       +std::to_string(splineOrder.size())
